@@ -137,9 +137,10 @@ def replay_case(args):
     mism = []
     from . import observe as O
 
+    pg, ins = WD.build_programs(w, ps, pv, tv)
     try:
         with O.LinkObserver():
-            r = at.run_model(S, Fw, ps)
+            r = at.run_model(S, Fw, ps, pg, ins)
     except ValueError as ex:
         if "broadcast" in str(ex):  # the injected state has the specification's number of rows; the code allocated another
             ps.initialization = None
@@ -167,7 +168,7 @@ def replay_case(args):
             if len(o) != len(e) or not all(close(a, fr(b)) for a, b in zip(o, e)):
                 mism.append(("flow", k, l["src"], l["dst"], l["par"], o, [str(fr(b)) for b in e]))
         for i, p in enumerate(w["pars"]):  # parameters computed by a function: the pipeline's value (dependencies first, clipped) at this index
-            if p.get("fn"):
+            if p.get("fn") or p.get("effect"):
                 o = float(m.get_pop(p["pop"]).get_par(p["base"]).vals[k])
                 if not close(o, fr(h["pv"][i])):
                     mism.append(("par", k, p["name"], o, str(fr(h["pv"][i]))))
